@@ -15,7 +15,8 @@ THEOREMS = ["Rva.lex_covers", "Rva.lexNext_progress", "Rva.lexNext_none", "Rva.l
             "Rva.parseInst_good", "Rva.parseNode_good", "Rva.parseStep_suffix", "Rva.parseStep_eof",
             "Rva.parseStep_progress", "Rva.parseNode_eh", "Rva.parseStep_error_located",
             "Rva.parseStep_error_in_items", "Rva.parseLoop_keeps", "Rva.failed_statement_reported",
-            "Rva.parseLoop_acc", "Rva.later_lines_unaffected"]
+            "Rva.parseLoop_acc", "Rva.later_lines_unaffected",
+            "Rva.malformed_line_contained", "Rva.malformed_line_only_adds_its_error", "Rva.recover_to_newline"]
 
 BAD_LINES = ["add t0, t1", "addi a0, a0", "lw a0", "foo a0, a1", "mov a0, a1", "addi a0, a0, 99999999999",
              "addi a0, q7, 1", "li a0, 1 +", "% li a0, 1", "li a0, 1 é", "li a0 : 1", "add t0, t1, t2 \r",
@@ -107,7 +108,7 @@ def meaningful(line):
 
 def run(res, tier, seed):
     rng = random.Random(seed)
-    proof_ok = proof_stage(res, "Rva.Proofs.C07c", THEOREMS, extra_modules=["Rva.Proofs.C07b", "Rva.Proofs.C07", "Rva.Proofs.LexTotal", "Rva.Proofs.C15b"])
+    proof_ok = proof_stage(res, "Rva.Proofs.C07c", THEOREMS, extra_modules=["Rva.Proofs.C07b", "Rva.Proofs.C07", "Rva.Proofs.LexTotal", "Rva.Proofs.C15b", "Rva.Proofs.C07d"])
     n = 120 if tier == "quick" else 12000
     inputs, meta = [], []
     for _ in range(n):
